@@ -42,6 +42,10 @@ pub trait Scalar: MomTropFloat + Copy + 'static {
     fn from_f64_consts() -> Vec<u64> {
         vec![]
     }
+    /// symbolic run: for every branch decision so far, the variables its atom depends on
+    fn atom_vars() -> Vec<Vec<String>> {
+        vec![]
+    }
     /// symbolic run: names of the variables the term depends on (syntactic cone)
     fn cone_vars(&self) -> Option<Vec<String>> {
         None
@@ -87,6 +91,23 @@ impl Scalar for Sym {
     }
     fn from_f64_consts() -> Vec<u64> {
         sym::CTX.with(|c| c.borrow().from_f64_consts.clone())
+    }
+    fn atom_vars() -> Vec<Vec<String>> {
+        sym::CTX.with(|c| {
+            let c = c.borrow();
+            c.taken
+                .iter()
+                .map(|(a, _)| {
+                    // a comparison of a bare coordinate with something else is reported as that coordinate alone
+                    for n in a.nodes() {
+                        if let sym::Node::Var(v) = &c.nodes[n as usize] {
+                            return vec![format!("direct:{}", v)];
+                        }
+                    }
+                    crate::smt::vars_in_cone(&c.nodes, &a.nodes()).into_iter().collect()
+                })
+                .collect()
+        })
     }
     fn cone_vars(&self) -> Option<Vec<String>> {
         Some(sym::CTX.with(|c| crate::smt::vars_in_cone(&c.borrow().nodes, &[self.0]).into_iter().collect()))
